@@ -247,12 +247,18 @@ def close(a, b, rtol=1e-10, atol=None):
         return False
     if a.size == 0:
         return True
-    scale = max(1.0, float(np.nanmax(np.abs(b))) if np.isfinite(b).any() else 1.0)
+    fin = np.isfinite(b)
+    scale = max(1.0, float(np.max(np.abs(b[fin]))) if fin.any() else 1.0)
     tol = rtol * scale if atol is None else atol
     na, nb = np.isnan(a), np.isnan(b)
     if (na != nb).any():
         return False
-    d = np.abs(np.where(na, 0.0, a) - np.where(nb, 0.0, b))
+    ia, ib = np.isinf(a), np.isinf(b)
+    if (ia != ib).any() or (ia & (np.sign(a) != np.sign(b))).any():
+        return False
+    skip = na | ia
+    with np.errstate(invalid="ignore", over="ignore"):
+        d = np.abs(np.where(skip, 0.0, a) - np.where(skip, 0.0, b))
     return bool((d <= tol).all())
 
 
